@@ -10,7 +10,7 @@ CLASSES = (('multiplane_loss', 'ml'), ('perceptual_multiplane_loss', 'pl'))
 CONFIGS = [(1, 1), (1, 2), (1, 3), (3, 1), (3, 3)]          # (channels, number of planes)
 SLICE_CONFIGS = [(1, 1), (3, 2), (1, 3)]            # (channels, number of planes N; N+1 positions)
 DARGS = shim.names('d', (H, W))
-TIE_STAGE1 = ['C16_TieA', 'C16_TieB', 'C16_TieC', 'C16_TieD']
+TIE_STAGE1 = ['C16_TieA', 'C16_TieB', 'C16_TieC', 'C16_TieD', 'C16_TieE', 'C16_TieF', 'C16_TieG']
 TIE_STAGE2 = ['C16_TieProps']
 SAMPLE_DEF = 'ml_c3n3_focus_1_0_1'
 
@@ -135,14 +135,15 @@ def self_check(g, rng, make_loss, slice_fn, log=print):
             y = torch.nn.functional.conv2d(torch.tensor([[[[a, b], [c, d]]]], dtype=torch.float32), ker, padding='same')
             return float(y[0, 0, p // 2, p % 2])
         return f
-    for C, npl in DEFOCUS_CONFIGS:
-        for rep in range(3):
+    for dcls, dtag in DEFOCUS_TAGS:
+      for C, npl in DEFOCUS_CONFIGS:
+        for rep in range(2):
             img = np.array([[[rng.randint(1, 256) / 256.0 for _ in range(W)] for _ in range(H)] for _ in range(C)])
             planes = list(range(npl)) + [rng.randint(0, npl - 1) for _ in range(H * W - npl)]
             rng.shuffle(planes)                                   # every plane owns a pixel: all guards hold
             dep = np.array([min(1.0, max(0.0, (k + rng.uniform(-0.4, 0.4)) / (npl - 1))) for k in planes]).reshape(H, W)
             mult = rng.choice([1.0, 1.5, 0.5])
-            L = make_loss('multiplane_loss', torch.tensor(img, dtype=torch.float32), torch.tensor(dep, dtype=torch.float32), npl, 'defocus', BLUR_SIZE, 1.0, mult)
+            L = make_loss(dcls, torch.tensor(img, dtype=torch.float32), torch.tensor(dep, dtype=torch.float32), npl, 'defocus', BLUR_SIZE, 1.0, mult)
             targets, _, _ = L.get_targets()
             env = {'mult': mult}
             for k in range(npl):
@@ -155,7 +156,7 @@ def self_check(g, rng, make_loss, slice_fn, log=print):
             for y in range(H):
                 for x in range(W):
                     env['d_%d_%d' % (y, x)] = float(np.float32(dep[y, x]))
-            pre = 'df_c%dn%d' % (C, npl)
+            pre = '%s_c%dn%d' % (dtag, C, npl)
             for ch in range(C):
                 for j in range(npl):
                     n += 1
@@ -243,11 +244,20 @@ class Gen16(Gen):
         return '\n\n'.join(out)
 
 
+DEFOCUS_TAGS = (('multiplane_loss', 'df'), ('perceptual_multiplane_loss', 'dp'))
+
+
 def trace_defocus(g):
+    for cls, tag in DEFOCUS_TAGS:
+        _trace_defocus(g, cls, tag)
+    return g
+
+
+def _trace_defocus(g, cls, tag):
     for C, n in DEFOCUS_CONFIGS:
         guards = []
         ns = _defocus_namespace(guards)
-        shim.load('odak/learn/wave/loss.py', ['set_targets', 'add_defocus_blur'], ns, cls='multiplane_loss')
+        shim.load('odak/learn/wave/loss.py', ['set_targets', 'add_defocus_blur'], ns, cls=cls)
         me = SimpleNamespace(target_image=shim.sym('x', (C, H, W)), target_depth=shim.sym('d', (H, W)),
                              number_of_planes=n, device='cpu', target_blur_size=BLUR_SIZE, blur_ratio=1.0,
                              multiplier=shim.var('mult'))
@@ -256,7 +266,7 @@ def trace_defocus(g):
         assert me.targets.shape == (n, C, H, W), me.targets.shape
         assert len(guards) == C * n * n, len(guards)
         args = xargs(C) + DARGS + ['mult']
-        pre = 'df_c%dn%d' % (C, n)
+        pre = '%s_c%dn%d' % (tag, C, n)
         k = 0
         for ch in range(C):
             for i in range(n):
